@@ -32,6 +32,7 @@ type kase struct {
 		Seed  uint64 `json:"seed"`
 		Steps int    `json:"steps"`
 	} `json:"auto"`
+	Live *liveSpec `json:"live"` // {"clients": 3, "deadline_ms": 8000}: live run over the deployment resources (live.go)
 }
 
 type result struct {
@@ -41,6 +42,7 @@ type result struct {
 	PCs0  map[string]string      `json:"pcs0"`
 	Steps []steplib.Obs          `json:"steps"`
 	Err   string                 `json:"err"`
+	Live  map[string]interface{} `json:"live,omitempty"`
 }
 
 func procName(p int) string {
@@ -58,6 +60,10 @@ func runCase(k kase) (res result) {
 			res.Err = fmt.Sprint("harness panic: ", r)
 		}
 	}()
+	if k.Live != nil {
+		res.Live = runLive(*k.Live)
+		return
+	}
 	var nodes []tla.Value
 	for i := 0; i <= k.N; i++ {
 		nodes = append(nodes, tla.MakeNumber(int32(i)))
@@ -117,6 +123,11 @@ func main() {
 			fmt.Fprintln(os.Stderr, "bad case:", err)
 			os.Exit(2)
 		}
-		enc.Encode(runCase(k))
+		r := runCase(k)
+		enc.Encode(r)
+		if r.Live != nil && r.Live["exit"] == true {
+			out.Flush()
+			os.Exit(0)
+		}
 	}
 }
